@@ -31,6 +31,7 @@ def main():
     ap.add_argument('pid')
     ap.add_argument('name')
     ap.add_argument('--skip-suite', action='store_true')
+    ap.add_argument('--reuse-suite', action='store_true', help='take the suite result from an existing meta.json (re-run of the check only)')
     ap.add_argument('--tier', default='quick')
     ap.add_argument('--also', default='', help='comma separated further property ids to run against the change')
     a = ap.parse_args()
@@ -55,6 +56,18 @@ def main():
         meta['demo_on_changed_exit'] = r1.returncode
         meta['demo_on_changed_output'] = r1.stdout[-600:]
         meta['ran'].append(f'PYTHONPATH=<changed worktree> python demo.py -> exit {r1.returncode}')
+        old_meta_path = os.path.join(VERIF, 'seeded', a.name, 'meta.json')
+        if a.reuse_suite and os.path.exists(old_meta_path):
+            old = json.load(open(old_meta_path))
+            for k in ('suite', 'suite_regressions', 'suite_regressions_failing_alone'):
+                if k in old:
+                    meta[k] = old[k]
+            meta['ran'] += [x for x in old.get('ran', []) if 'baseline.sh' in x or 're-run alone' in x]
+            meta['earlier_check_results'] = old.get('earlier_check_results', []) + [{'at': old.get('confirmed_at'), 'checks': old.get('checks')}]
+            a.skip_suite = True
+            suite_reused = True
+        else:
+            suite_reused = False
         if not a.skip_suite:
             r = sh(f'bash {VERIF}/tools/baseline.sh {wt}')
             line = [l for l in r.stdout.splitlines() if 'regressions=' in l]
@@ -91,7 +104,7 @@ def main():
         shutil.rmtree(scratch, ignore_errors=True)
         sh('git -C /repo worktree prune')
     ok = (meta.get('demo_on_clean_exit') == 0 and meta.get('patch_applies') and meta.get('demo_on_changed_exit') not in (0, None)
-          and (a.skip_suite or 'regressions=0' in meta.get('suite', '')
+          and ((a.skip_suite and not suite_reused) or 'regressions=0' in meta.get('suite', '')
                or (meta.get('suite_regressions') and not meta.get('suite_regressions_failing_alone', ['x']))))
     meta['confirmed'] = bool(ok)
     dst = os.path.join(VERIF, 'seeded', a.name)
